@@ -10,7 +10,7 @@ HARNESSES = ()
 THEOREMS = ["C09_ledger", "C09_only_addressee", "C09_only_addressee_any_state", "C09_refused", "C09_at_most_one",
             "C09_no_reply_exactly_once_disconnect", "C09_no_reply_exactly_once_timeout", "C09_no_reply_only_for_open_calls",
             "C09_no_slot_for_no_reply_flag", "C09_limit", "C09_limit_refuses",
-            "C09_only_addressee_refuted", "C09_second_error_refuted", "C09_no_reply_refuted"]
+            "C09_no_reply_refuted"]
 
 NONTRIVIAL = {"reply-delivered", "reply-refused", "noreply-disconnect", "noreply-timeout", "limit-refused", "duplicate-serial-refused",
               "fd-refused", "call-or-signal-with-rserial-delivered"}
